@@ -9,6 +9,7 @@ package main
 import (
 	"flag"
 	"fmt"
+	"go/types"
 	"os"
 	"path/filepath"
 	"runtime/debug"
@@ -55,6 +56,7 @@ func main() {
 			os.Exit(2)
 		}
 		if *list {
+			debugFieldLocks(p)
 			debugInvokes(p)
 			for _, f := range p.Funcs {
 				fmt.Println(p.FuncName(f), p.FuncPos(f))
@@ -229,6 +231,44 @@ func debugInvokes(p *Program) {
 	for _, cs := range p.CallSites() {
 		if cs.Instr.Common().IsInvoke() || cs.Name == "dyn" {
 			fmt.Printf("%-32s %-45s %s  recv=%s\n", p.FuncName(cs.Fn), cs.Name, p.InstrPos(cs.Instr), cs.Instr.Common().Value.String())
+		}
+	}
+}
+
+func debugFieldLocks(p *Program) {
+	env := getLockEnv(p)
+	for _, tn := range []string{"Conn", "msgReader", "msgWriter", "limitReader", "netConn", "trimLastFourBytesWriter", "slidingWindow"} {
+		nt := p.NamedType(tn)
+		if nt == nil {
+			continue
+		}
+		st := nt.Underlying().(*types.Struct)
+		for i := 0; i < st.NumFields(); i++ {
+			f := st.Field(i)
+			var rows []string
+			for _, fa := range p.FieldAccesses(f) {
+				root := fa.Fn
+				for root.Parent() != nil {
+					root = root.Parent()
+				}
+				if constructorFns[p.FuncName(root)] {
+					continue
+				}
+				h := env.la.HeldAt(fa.Instr)
+				k := "R"
+				if fa.Write {
+					k = "W"
+				} else if fa.Addr {
+					k = "&"
+				}
+				hs := "⊤"
+				if h != topLocks {
+					hs = strings.Join(env.la.Names(h), ",")
+				}
+				rows = append(rows, fmt.Sprintf("%s %s{%s}", k, p.FuncName(fa.Fn), hs))
+			}
+			sort.Strings(rows)
+			fmt.Printf("%s.%s: %s\n", tn, f.Name(), strings.Join(rows, " | "))
 		}
 	}
 }
